@@ -134,10 +134,25 @@ def cmp_operand(kind, i, j):
         class Sub(InterfaceClass):
             pass
         return Sub(n, (), {}, __module__=m)
+    if kind == 9:                       # a handle standing in for an interface: own __eq__/__ne__, no __name__/__module__
+        class Handle:
+            __slots__ = ()
+
+            def __eq__(self, other):
+                return isinstance(other, InterfaceClass)
+
+            def __ne__(self, other):
+                return not isinstance(other, InterfaceClass)
+
+            __hash__ = None
+
+            def __getattr__(self, name):
+                raise AttributeError(name)
+        return Handle()
     raise ValueError(kind)
 
 
-NCMP_KINDS = 9
+NCMP_KINDS = 10
 
 
 def run_cmp(program):
@@ -163,6 +178,8 @@ def run_cmp(program):
             trace.append(hash(x) == hash((getattr(x, '__name__', None), getattr(x, '__module__', None))))
         except Exception as e:   # noqa
             trace.append(_exc(e))
+    if 9 in (k1, k2):
+        return trace                   # unorderable on purpose: no sorted()
     try:
         coll = [b, a, cmp_operand(k1, i2, j1)]
         trace.append([[getattr(x, '__name__', repr(x)), getattr(x, '__module__', None)] for x in sorted(coll)])
